@@ -106,8 +106,39 @@ def version_part(ctx, model, rng):
             ctx.fail(f"version string '{s}' parses to {impl}, expected {want} (dev bit iff the string carries a dev/local part)", {'string': s})
 
 
+MODEL = {}
+
+
+def container_correspondence(ctx, path, desc, what):
+    """K: Model/Container (disk-block count, footer offsets per format version, file length) vs the bytes a real writer
+    produced and the offsets the real reader derives"""
+    m = MODEL.get('m')
+    if m is None:
+        return
+    import os
+    try:
+        h, _ = spec.read_header(path)
+        lay = h.layout()
+        if lay.is2d:
+            return
+        req = (f"container {lay.n[0]} {lay.n[1]} {lay.n[2]} {lay.bs[0]} {lay.bs[1]} {lay.bs[2]} {lay.u} {lay.q} {h.version} "
+               f"{h.n_header_blocks} {h.array_bytes} {h.n_arrays}")
+        ctx.stats['corr_requests'] += 1
+        ans = m.ask(req)
+        with SgzReader(path) as r:
+            from seismic_zfp.utils import FileOffset
+            offs = sorted(set(int(v) for v in r.segy_traceheader_template.values() if isinstance(v, FileOffset)))
+        real = f"{h.data_blocks} | {' '.join(str(o) for o in offs)} | {os.path.getsize(path)}"
+        if ans != real:
+            ctx.corr_fail('Model.Container', req, ans[:200], real[:200], dict(desc, what=what))
+    except Exception as e:  # noqa
+        ctx.corr_fail('Model.Container', str(path), 'readable file', f'{type(e).__name__}: {str(e)[:100]}', dict(desc, what=what))
+
+
 def file_matches_reader(ctx, path, desc, what):
     """the decoder written from the specification alone reads every sample and header the real reader reads"""
+    if 'stamped' not in what and 'gate' not in what:
+        container_correspondence(ctx, path, desc, what)
     probs = spec.conformance_problems(path)
     if not probs:
         try:
@@ -270,6 +301,7 @@ def gate_files(ctx, rng):
 def run(ctx):
     model = core.Model()
     rng = gen.rng_for(ctx.seed, 'c03')
+    MODEL['m'] = model
     try:
         version_part(ctx, model, rng)
         writers_part(ctx, rng)
